@@ -133,13 +133,13 @@ func TestFullStateExchange(t *testing.T) {
 			sub.Inconclusive(err.Error())
 			return
 		}
-		defer a.peer.Leave(100 * time.Millisecond)
+		defer func() { a.peer.Leave(100 * time.Millisecond); a.peer.VerifCloseTransport() }()
 		b, err := startXPeer(fmt.Sprintf("xb%d", i), "")
 		if err != nil {
 			sub.Inconclusive(err.Error())
 			return
 		}
-		defer b.peer.Leave(100 * time.Millisecond)
+		defer func() { b.peer.Leave(100 * time.Millisecond); b.peer.VerifCloseTransport() }()
 		base := time.Now()
 		var steps []string
 		note := func(f string, args ...any) { steps = append(steps, fmt.Sprintf(f, args...)) }
@@ -324,7 +324,7 @@ func TestQueuePruningConservation(t *testing.T) {
 		sub.Inconclusive(err.Error())
 		return
 	}
-	defer p.Leave(100 * time.Millisecond)
+	defer func() { p.Leave(100 * time.Millisecond); p.VerifCloseTransport() }()
 	created := time.Now()
 	s, err := silence.New(silence.Options{Retention: time.Hour, Metrics: reg, EventRecorder: eventrecorder.NopRecorder()})
 	if err != nil {
@@ -407,6 +407,7 @@ func TestEditsEffectiveOnConnectedPeer(t *testing.T) {
 			peerB, sb, err := mk(fmt.Sprintf("ef-b-%d-%d", i, attempt), []string{peerA.Self().Address()})
 			if err != nil {
 				peerA.Leave(100 * time.Millisecond)
+				peerA.VerifCloseTransport()
 				sub.Inconclusive(err.Error())
 				return
 			}
@@ -420,7 +421,9 @@ func TestEditsEffectiveOnConnectedPeer(t *testing.T) {
 			}
 			if !wait(func() bool { return peerA.ClusterSize() == 2 && peerB.ClusterSize() == 2 }) {
 				peerA.Leave(100 * time.Millisecond)
+				peerA.VerifCloseTransport()
 				peerB.Leave(100 * time.Millisecond)
+				peerB.VerifCloseTransport()
 				sub.Inconclusive("cluster did not form")
 				return
 			}
@@ -469,7 +472,9 @@ func TestEditsEffectiveOnConnectedPeer(t *testing.T) {
 				}
 			}
 			peerA.Leave(100 * time.Millisecond)
+			peerA.VerifCloseTransport()
 			peerB.Leave(100 * time.Millisecond)
+			peerB.VerifCloseTransport()
 			if problem == nil {
 				break
 			}
